@@ -133,7 +133,10 @@ class ServerLoop(impl.VirtualLoop):
             # let the consumer task and the worker threads (archive, LIMS push) finish
             try:
                 import time as _time
-                deadline = _time.monotonic() + 60          # real seconds: worker threads run in real time
+                import concurrent.futures as _cf
+                # (a pool of its own: the default executor may be full of workers of the code under test that never return)
+                waiter = _cf.ThreadPoolExecutor(1)
+                deadline = _time.monotonic() + WORKER_PATIENCE[0]   # real seconds: worker threads run in real time
                 while _time.monotonic() < deadline:
                     pending = [x for x in asyncio.all_tasks(self) if x is not asyncio.current_task()
                                and not x.done() and "consume" not in repr(x.get_coro())]
@@ -145,7 +148,11 @@ class ServerLoop(impl.VirtualLoop):
                         if not pending:
                             break
                     # wait in real time (the virtual clock would skip any asyncio timeout at once)
-                    await self.run_in_executor(None, _time.sleep, 0.003)
+                    await self.run_in_executor(waiter, _time.sleep, 0.003)
+                else:
+                    self.errors.append("worker threads / tasks did not finish within %d s" % WORKER_PATIENCE[0])
+                    WORKER_PATIENCE[0] = 5      # (further runs of this process do not wait as long again)
+                waiter.shutdown(wait=False)
             except Exception as e:  # noqa
                 self.errors.append("finish: %r" % (e,))
             finally:
@@ -156,6 +163,9 @@ class ServerLoop(impl.VirtualLoop):
         self.call_at(t_end + self.settle, self._own(start_finish))
         super().run_forever()
         raise KeyboardInterrupt          # what Ctrl-C does to the running server
+
+
+WORKER_PATIENCE = [40]
 
 
 def run_server_main(args, scenario, settle=0):
